@@ -15,7 +15,7 @@ import itertools
 from typing import Dict, List, Optional
 
 from pyanalyze.signature import ParameterKind, Signature, SigParameter
-from pyanalyze.value import AnySource, AnyValue, CallableValue, CanAssignError, KnownValue
+from pyanalyze.value import AnySource, AnyValue, CallableValue, CanAssignError, GenericValue, KnownValue, TypedValue
 
 from vf.common import Atom, Rel, get_checker
 from vf.engine import Case
@@ -64,6 +64,10 @@ def _mk(spec, anns=None, ret=None):
     params = []
     for i, (n, k, d) in enumerate(spec):
         ann = anns[i] if anns is not None else ANY
+        if anns is not None and k == 2:  # *args: T is stored as tuple[T, ...], **kwargs: T as dict[str, T]
+            ann = GenericValue(tuple, [ann])
+        elif anns is not None and k == 4:
+            ann = GenericValue(dict, [TypedValue(str), ann])
         params.append(SigParameter(n, K(k), default=KnownValue(None) if d else None, annotation=ann))
     return Signature.make(params, ret if ret is not None else ANY)
 
@@ -293,6 +297,11 @@ def cases(tier: str, seed: int) -> List[Case]:
         ([["kwargs", 4, 0]], [["kwargs", 4, 0]]),
         ([["args", 2, 0]], [["a", 0, 1], ["args", 2, 0]]),
         ([["kwargs", 4, 0]], [["a", 3, 1], ["kwargs", 4, 0]]),
+        # the expected parameter is absorbed by *args / **kwargs while the actual signature also has a parameter of
+        # that name: a keyword call binds to that parameter, whose type must accept the expected one
+        ([["a", 1, 0]], [["args", 2, 0], ["a", 3, 1], ["kwargs", 4, 0]]),
+        ([["a", 1, 0]], [["args", 2, 0], ["a", 3, 1]]),
+        ([["a", 3, 0]], [["a", 3, 1], ["kwargs", 4, 0]]),
     ]
     for si, (e, a) in enumerate(shapes):
         for ea in itertools.product(range(3), repeat=len(e)):
